@@ -84,13 +84,13 @@ def _check_fft_inner(case, ctx):
             return ctx.call(P.Wavefront(a, 0.6, 0.1, 'psf').unfocus, 50.0, q).data
     F = foc(f, Q)
     U.check_shape(F, padded, 'focus')
-    ctx.require(abs(_energy(F) - E) <= tol * max(E, 1e-300), 'focus:energy', 'focus %s Q=%r: energy %.15g -> %.15g' % (shape, Q, E, _energy(F)))
+    ctx.within(abs(_energy(F) - E), tol * max(E, 1e-300), 'focus:energy', 'focus %s Q=%r: energy %.15g -> %.15g' % (shape, Q, E, _energy(F)))
     back = unf(F, 1)
     U.check_close(back, U.embed(f.astype(complex), padded), tol, 'unfocus(focus)', 'unfocus(focus(f,Q=%r),1) vs f embedded in %s' % (Q, padded),
                   atol=tol * math.sqrt(E))
     G = unf(f, Q)
     U.check_shape(G, padded, 'unfocus')
-    ctx.require(abs(_energy(G) - E) <= tol * max(E, 1e-300), 'unfocus:energy', 'unfocus %s Q=%r: energy %.15g -> %.15g' % (shape, Q, E, _energy(G)))
+    ctx.within(abs(_energy(G) - E), tol * max(E, 1e-300), 'unfocus:energy', 'unfocus %s Q=%r: energy %.15g -> %.15g' % (shape, Q, E, _energy(G)))
     back2 = foc(G, 1)
     U.check_close(back2, U.embed(f.astype(complex), padded), tol, 'focus(unfocus)', 'focus(unfocus(f,Q=%r),1) vs f embedded in %s' % (Q, padded),
                   atol=tol * math.sqrt(E))
@@ -235,7 +235,7 @@ def _check_pairs_inner(case, ctx):
                     ctx.call(inv, np.asarray(Fi), 1, tuple(shape), sh)
         F = ctx.call(fwd, f, Q, k, sh) if shifted else ctx.call(fwd, f, Q, k)
         U.check_shape(F, k, bucket)
-        ctx.require(abs(_energy(F) - E) <= 10 * tol * max(E, 1e-300), bucket + ':energy',
+        ctx.within(abs(_energy(F) - E), 10 * tol * max(E, 1e-300), bucket + ':energy',
                     '%s %s onto the full band %s: energy %.15g -> %.15g' % (method, shape, k, E, _energy(F)))
         g = ctx.call(inv, np.asarray(F), 1, tuple(shape), sh) if shifted else ctx.call(inv, np.asarray(F), 1, tuple(shape))
     U.check_close(g, f, tol, bucket + ':roundtrip', '%s %s %s->%s->%s' % (method, case['order'], shape, k, shape), atol=tol * math.sqrt(E))
@@ -298,7 +298,7 @@ def check_free(case, ctx):
             return wo.data
         H = ctx.call(P.angular_spectrum_transfer_function, tuple(padded), wvl, dx, z1)
         U.check_shape(H, padded, 'transfer_function')
-        ctx.require(float(np.abs(np.abs(H) - 1).max()) <= (1e-12 if prec == 64 else 1e-5), 'transfer_function:modulus',
+        ctx.within(float(np.abs(np.abs(H) - 1).max()), 1e-12 if prec == 64 else 1e-5, 'transfer_function:modulus',
                     '|H| deviates from 1 by %.3g' % float(np.abs(np.abs(H) - 1).max()))
         if True:
             Hsq = ctx.call(P.angular_spectrum_transfer_function, int(padded[0]), wvl, dx, z1)
@@ -307,7 +307,7 @@ def check_free(case, ctx):
         U.check_close(g0, f0, tol, 'free_space:z=0', 'P(0) f != f (embedded in %s)' % (padded,), atol=tol * math.sqrt(E))
         g1 = prop(f, z1, Q)
         U.check_shape(g1, padded, 'free_space')
-        ctx.require(abs(_energy(g1) - E) <= 10 * tol * max(E, 1e-300), 'free_space:energy', 'energy %.15g -> %.15g at z=%g' % (E, _energy(g1), z1))
+        ctx.within(abs(_energy(g1) - E), 10 * tol * max(E, 1e-300), 'free_space:energy', 'energy %.15g -> %.15g at z=%g' % (E, _energy(g1), z1))
         gb = prop(np.asarray(g1), -z1, 1)
         U.check_close(gb, f0, tol, 'free_space:inverse', 'P(-z)P(z) f != f for z=%g' % z1, atol=tol * math.sqrt(E))
         g12 = prop(np.asarray(g1), z2, 1)
